@@ -180,6 +180,32 @@ fn extra_builders(tier: Tier) -> Vec<(String, DetBuilder)> {
         let m = linfa_reduction::DiffusionMap::<f64>::params(2).steps(1).transform(&kernel).map_err(es)?;
         Ok(vec![("embedding".into(), arr2(m.embedding())), ("eigvals".into(), fbs(m.eigvals().iter()))])
     })));
+    // ---- boundary seeds: the claim is "same seed", whatever the seed (0 and the maximum included)
+    for seed in [0usize, 1, 42, usize::MAX] {
+        v.push((format!("fastica-random-state-{seed}"), Box::new(move || {
+            let d = make_data(31, 200, 3, false);
+            let m = linfa_ica::fast_ica::FastIca::<f64>::params().ncomponents(2).random_state(seed).fit(&DatasetBase::from(d.x.clone())).map_err(es)?;
+            let y: Array2<f64> = m.predict(&zoo::probe(4, 10, 3, false));
+            Ok(vec![("predict".into(), arr2(&y))])
+        })));
+        v.push((format!("kmeans-seed-{seed}"), Box::new(move || {
+            let ds = DatasetBase::from(big_blobs(6, 600, 2));
+            let m = KMeans::params_with_rng(3, rand_xoshiro::Xoshiro256Plus::seed_from_u64(seed as u64)).max_n_iterations(10).fit(&ds).map_err(es)?;
+            Ok(vec![("centroids".into(), arr2(m.centroids())), ("inertia".into(), fb(m.inertia()))])
+        })));
+        v.push((format!("gmm-seed-{seed}"), Box::new(move || {
+            let ds = DatasetBase::from(big_blobs(8, 300, 2));
+            let m = GaussianMixtureModel::params_with_rng(2, rand_xoshiro::Xoshiro256Plus::seed_from_u64(seed as u64)).max_n_iterations(20).fit(&ds).map_err(es)?;
+            Ok(vec![("means".into(), arr2(m.means())), ("weights".into(), fbs(m.weights().iter()))])
+        })));
+        v.push((format!("gaussian-random-projection-seed-{seed}"), Box::new(move || {
+            use linfa_reduction::random_projection::GaussianRandomProjection;
+            let x = big_blobs(15, 30, 20);
+            let m = GaussianRandomProjection::<f64>::params_with_rng(rand_xoshiro::Xoshiro256Plus::seed_from_u64(seed as u64)).target_dim(4).fit(&DatasetBase::from(x.clone())).map_err(es)?;
+            let t: Array2<f64> = m.transform(&x);
+            Ok(vec![("transform".into(), arr2(&t))])
+        })));
+    }
     v.push(("ftrl-default-seed".into(), Box::new(|| {
         let d = make_data(17, 200, 4, false);
         let ds = Dataset::new(d.x.clone(), d.ybin.clone());
